@@ -15,6 +15,18 @@ Theorem C03_roundtrip_raw : forall es r, Forall entry_ok es -> N.of_nat (length 
   deserialize_entries (serialize_entries es ++ r) = es.
 Proof. exact C03_roundtrip_raw. Qed.
 
+(* The checked decoder (which the server uses) accepts it too, and rejects — without allocating — any input
+   whose count exceeds the bytes that follow. *)
+Theorem C03_roundtrip_checked : forall es r, Forall entry_ok es -> N.of_nat (length es) < 2^64 ->
+  deserialize_res (serialize_entries es ++ r) = Some es.
+Proof. exact roundtrip_res. Qed.
+Theorem C03_count_beyond_input_rejected : forall n r, n < 2^64 -> N.of_nat (length r) < n ->
+  deserialize_res (put_uvarint n ++ r) = None.
+Proof.
+  intros n r Hn Hlt. unfold deserialize_res. rewrite read_put_uvarint by assumption.
+  apply N.ltb_lt in Hlt. rewrite Hlt. reflexivity.
+Qed.
+
 (* Both internal compressions. gzip is a pair of functions with the round-trip contract (trusted base). *)
 Section Compression.
 Variable comp : list N -> list N.
@@ -60,6 +72,8 @@ Qed.
 
 Print Assumptions C03_varint.
 Print Assumptions C03_roundtrip_raw.
+Print Assumptions C03_roundtrip_checked.
+Print Assumptions C03_count_beyond_input_rejected.
 Print Assumptions C03_roundtrip.
 Print Assumptions C03_encoder_is_spec.
 Print Assumptions C03_decoder_reads_spec.
